@@ -45,6 +45,7 @@ B_MENU = [
     ('3 atoms, tables', lambda: mk(3, True, 'xy', q0=-0.3, shift=7.0), True),
     ('3 atoms, tables, extra columns (one label shared with A)', lambda: mk(3, True, 'xy-much-longer-values', q0=-0.3, shift=7.0, xf=True), True),
     ('4 atoms, tables', lambda: mk(4, True, 'xy', q0=-0.3, shift=7.0), True),
+    ('3 atoms, tables, the same extra labels as A with longer values', lambda: mk(3, True, 'ab-much-longer-values', q0=-0.3, shift=7.0, xf=True), True),
     ('1 atom, no tables', lambda: mk(1, False, 'xy', q0=-0.3, shift=7.0), False),
     ('2 atoms, no tables', lambda: mk(2, False, 'xy', q0=-0.3, shift=7.0), False),
     ('3 atoms, no tables, extra columns', lambda: mk(3, False, 'xy-much-longer-values', q0=-0.3, shift=7.0, xf=True), False),
